@@ -114,6 +114,14 @@ ArgvFinger(r) ==
   \cup (IF p.k = "generate" /\ r.exit # 0 /\ changed THEN {<<"C17", "failing-run-changed-files", "argv", r.id>>} ELSE {})
   \cup (IF p.k = "generate" /\ r.exit \notin {0, 1} THEN {<<"C17", "exit-status-not-0-or-1", "", r.id>>} ELSE {})
 
+\* ---------------------------------------------------------------- programs (C13)
+ProgFinger(r) ==
+  (IF r.timeout THEN {<<"C13", "generator-hang", r.name, r.id>>} ELSE {})
+  \cup (IF r.panic THEN {<<"C13", "generator-panic", r.why, r.id>>} ELSE {})
+  \cup (IF ~r.timeout /\ ~r.panic /\ r.exit \notin {0, 1} THEN {<<"C13", "exit-status-not-0-or-1", "", r.id>>} ELSE {})
+  \cup (IF r.exit = 1 /\ ~r.stderr THEN {<<"C13", "failure-without-diagnostic", "", r.id>>} ELSE {})
+  \cup (IF r.exit = 0 /\ ~r.compiles THEN {<<"C01", "does-not-compile", "shapes", r.id>>} ELSE {})
+
 VARIABLES l, bad, memo, phase
 Init == l = 1 /\ bad = {} /\ memo = <<>> /\ phase = 1
 Next == \/ /\ phase = 1 /\ l <= Len(Obs)
@@ -125,7 +133,7 @@ Next == \/ /\ phase = 1 /\ l <= Len(Obs)
               IF r.kind = "hist"
               THEN LET h == HistFinger(r, memo) IN
                    /\ bad' = bad \cup {<<x[1], x[2], x[3]>> : x \in h.fp} /\ EmitFP(h.fp)
-              ELSE LET f == IF r.kind = "place" THEN PlaceFinger(r) ELSE ArgvFinger(r) IN
+              ELSE LET f == IF r.kind = "place" THEN PlaceFinger(r) ELSE IF r.kind = "prog" THEN ProgFinger(r) ELSE ArgvFinger(r) IN
                    /\ bad' = bad \cup {<<x[1], x[2], x[3]>> : x \in f} /\ EmitFP(f)
            /\ l' = l + 1 /\ UNCHANGED <<memo, phase>>
 Done == phase = 2 /\ l = Len(Obs) + 1
